@@ -10,6 +10,8 @@ from ..printer import PrinterExtractor
 from ..lib import params, returns_of, reaching_defs_attr
 from . import c03
 
+from . import extra as X
+
 EXPLANATION = ("C02.1 language inclusion printer <= parser on bounded sentences: the printer grammar is extracted from the "
                "encode() methods by abstract interpretation, its guarded productions are instantiated for every constructor "
                "shape the parse actions can build, and each sentence is tested for membership in a relaxed CFG reading of "
@@ -110,8 +112,9 @@ def constructor_shapes(repo):
 
 # --------------------------------------------------------------------------- sentence enumeration
 class Enumerator:
-    def __init__(self, repo, g, px, rows, tier):
+    def __init__(self, repo, g, px, rows, tier, unknown_may_be_empty=False):
         self.repo, self.g, self.px, self.rows, self.tier = repo, g, px, rows, tier
+        self.unknown_may_be_empty = unknown_may_be_empty
         self.shapes, self.sites = constructor_shapes(repo)
         self.lens = [1, 2] if tier == "quick" else [1, 2, 3]
         self.link_depth = 1 if tier == "quick" else 2
@@ -174,7 +177,7 @@ class Enumerator:
             E = self.reps(elems, (60 if top else 6) if self.tier == "quick" else (150 if top else 10))
             if not E:
                 return []
-            out = []
+            out = [[]] if (self.unknown_may_be_empty and kind == "UNKNOWN" and (cname, f) in self.unknown_may_be_empty) else []
             for n in self.lens:
                 if n == 1:
                     out += [[e] for e in E]
@@ -298,8 +301,9 @@ class Enumerator:
 
     def pexpr(self, inst, e):
         if isinstance(e, ast.BoolOp):
-            vals = [self.pexpr(inst, v) for v in e.values]
-            return all(vals) if isinstance(e.op, ast.And) else any(vals)
+            if isinstance(e.op, ast.And):
+                return all(self.pexpr(inst, v) for v in e.values)     # generator: short-circuits like Python
+            return any(self.pexpr(inst, v) for v in e.values)
         if isinstance(e, ast.UnaryOp) and isinstance(e.op, ast.Not):
             return not self.pexpr(inst, e.operand)
         if isinstance(e, ast.Compare) and len(e.ops) == 1:
@@ -672,3 +676,4 @@ def run(chk):
     chk.assumptions += ["relaxed CFG reading of the pyparsing grammar accepts a superset of the real parser's language "
                         "(ordered choice -> union, greedy -> any split, look-ahead -> epsilon)",
                         "urllib.parse.quote (stdlib) models the library call made by encode_token (shape checked by C03.T4)"]
+    X.rule_printer_injective(chk, "C02.6")
